@@ -76,8 +76,9 @@ def integer_getter(prog, ctx, g, f, width, signed):
     cname = call.j["callee"]
     cw, cs = conv.STRTO[cname]
     succ = conv.success_returns(f)
-    if not succ:
+    if cfg.success_path_avoiding(lambda lit, b, i: False) is None:
         raise Inconclusive("%s: no success return" % g)
+    anchor = succ[0] if succ else f
     # ---- R4 base / endptr / ERANGE ----------------------------------------------------------
     args = call.call_args()
     if cname.startswith("ato"):
@@ -100,26 +101,23 @@ def integer_getter(prog, ctx, g, f, width, signed):
     a1 = args[1].strip()
     if a1.k == "UnaryOperator" and a1.j.get("op") == "&":
         endp = render(a1.children[0])
-    for r in succ:
-        rb = cfg.block_of(r)
-        if endp:
-            ok, _ = cfg.all_paths_cut(rb, lambda lit, b, i: lit is not None and lit.kind == "eq" and not lit.pol
-                                      and endp in (render(lit.lhs), render(lit.rhs)))
-        else:
-            ok = False
-        if ok:
-            ctx.ok("R4", "%s: no-digits test" % g, r.where, "every path to success carries %s != start of text" % endp)
-        else:
-            ctx.fail("R4", "%s: no-digits test" % g, r.where,
-                     "success is reachable without the end-pointer having moved: text without digits yields 0", key="endptr:%s" % g)
-        ok, _ = cfg.all_paths_cut(rb, lambda lit, b, i: lit is not None and lit.kind == "eq" and not lit.pol
-                                  and "__errno_location" in lit.atom and conv.ERANGE in (lit.lhs.const_value(), lit.rhs.const_value()))
-        if ok:
-            ctx.ok("R4", "%s: ERANGE test" % g, r.where, "every path to success carries errno != ERANGE")
-        else:
-            ctx.fail("R4", "%s: ERANGE test" % g, r.where,
-                     "success is reachable although %s reported ERANGE: out-of-range literals are clamped to the limit" % cname,
-                     key="erange:%s" % g)
+    if endp:
+        ok = cfg.success_cut(lambda lit, b, i: lit is not None and lit.kind == "eq" and not lit.pol and endp in (render(lit.lhs), render(lit.rhs)))
+    else:
+        ok = False
+    if ok:
+        ctx.ok("R4", "%s: no-digits test" % g, anchor.where, "every path to success carries %s != start of text" % endp)
+    else:
+        ctx.fail("R4", "%s: no-digits test" % g, anchor.where,
+                 "success is reachable without the end-pointer having moved: text without digits yields 0", key="endptr:%s" % g)
+    ok = cfg.success_cut(lambda lit, b, i: lit is not None and lit.kind == "eq" and not lit.pol
+                         and "__errno_location" in lit.atom and conv.ERANGE in (lit.lhs.const_value(), lit.rhs.const_value()))
+    if ok:
+        ctx.ok("R4", "%s: ERANGE test" % g, anchor.where, "every path to success carries errno != ERANGE")
+    else:
+        ctx.fail("R4", "%s: ERANGE test" % g, anchor.where,
+                 "success is reachable although %s reported ERANGE: out-of-range literals are clamped to the limit" % cname,
+                 key="erange:%s" % g)
     # ---- R1 narrowing -------------------------------------------------------------------------
     stores = conv.result_stores(f)
     if not stores:
@@ -149,52 +147,46 @@ def integer_getter(prog, ctx, g, f, width, signed):
                                                                         "signed" if signed else "unsigned"),
                      key="narrow:%s" % g)
             continue
-        for ret in succ:
-            rb = cfg.block_of(ret)
-            need_hi, _ = cfg.all_paths_cut(rb, lambda lit, b, i: lit is not None and lit.kind == "lt" and
-                                           ((render(lit.rhs) == wide and conv.const_of(lit.lhs) == hi and not lit.pol) or
-                                            (render(lit.lhs) == wide and conv.const_of(lit.rhs) == hi + 1 and lit.pol)))
-            if signed:
-                need_lo, _ = cfg.all_paths_cut(rb, lambda lit, b, i: lit is not None and lit.kind == "lt" and
-                                               ((render(lit.lhs) == wide and conv.const_of(lit.rhs) == lo and not lit.pol) or
-                                                (render(lit.rhs) == wide and conv.const_of(lit.lhs) == lo - 1 and lit.pol)))
-            else:
-                need_lo = True
-            if need_hi and need_lo:
-                ctx.ok("R1", "%s: narrowing store" % g, st.where, "every path to success carries %d <= %s <= %d" % (lo, wide, hi))
-            else:
-                ctx.fail("R1", "%s: narrowing store" % g, st.where,
-                         "the wide value `%s` is stored into a %d-bit result without a %s range test on the path to success" % (
-                             wide, width, "upper" if not need_hi else "lower"), key="narrow:%s" % g)
+        need_hi = cfg.success_cut(lambda lit, b, i: lit is not None and lit.kind == "lt" and
+                                  ((render(lit.rhs) == wide and conv.const_of(lit.lhs) == hi and not lit.pol) or
+                                   (render(lit.lhs) == wide and conv.const_of(lit.rhs) == hi + 1 and lit.pol)))
+        if signed:
+            need_lo = cfg.success_cut(lambda lit, b, i: lit is not None and lit.kind == "lt" and
+                                      ((render(lit.lhs) == wide and conv.const_of(lit.rhs) == lo and not lit.pol) or
+                                       (render(lit.rhs) == wide and conv.const_of(lit.lhs) == lo - 1 and lit.pol)))
+        else:
+            need_lo = True
+        if need_hi and need_lo:
+            ctx.ok("R1", "%s: narrowing store" % g, st.where, "every path to success carries %d <= %s <= %d" % (lo, wide, hi))
+        else:
+            ctx.fail("R1", "%s: narrowing store" % g, st.where,
+                     "the wide value `%s` is stored into a %d-bit result without a %s range test on the path to success" % (
+                         wide, width, "upper" if not need_hi else "lower"), key="narrow:%s" % g)
     # ---- R3 sign ---------------------------------------------------------------------------------
     if not signed:
         vuses = conv.value_field_uses(f)
-        for ret in succ:
-            rb = cfg.block_of(ret)
-
-            def no_minus(lit, b, i):
-                if lit is None:
-                    return False
-                if lit.kind == "eq" and not lit.pol and 45 in (lit.lhs.const_value(), lit.rhs.const_value()):
-                    return True
-                if lit.kind == "truth" and not lit.pol and lit.node.k == "CallExpr" and lit.node.j.get("callee") in ("strchr", "memchr") \
-                        and len(lit.node.call_args()) > 1 and lit.node.call_args()[1].const_value() == 45:
-                    return True
+        def no_minus(lit, b, i):
+            if lit is None:
                 return False
-            ok, _ = cfg.all_paths_cut(rb, no_minus)
-            if ok:
-                ctx.ok("R3", "%s refuses a minus sign" % g, ret.where, "every path to success carries a `no '-'` test of the text")
-            else:
-                ctx.fail("R3", "%s refuses a minus sign" % g, call.where,
-                         "%s silently negates: '-1' is returned as %d with success; no test for '-' on the path to success" % (cname, hi),
-                         key="sign:%s" % g)
+            if lit.kind == "eq" and not lit.pol and 45 in (lit.lhs.const_value(), lit.rhs.const_value()):
+                return True
+            if lit.kind == "truth" and not lit.pol and lit.node.k == "CallExpr" and lit.node.j.get("callee") in ("strchr", "memchr") \
+                    and len(lit.node.call_args()) > 1 and lit.node.call_args()[1].const_value() == 45:
+                return True
+            return False
+        if cfg.success_cut(no_minus):
+            ctx.ok("R3", "%s refuses a minus sign" % g, anchor.where, "every path to success carries a `no '-'` test of the text")
+        else:
+            ctx.fail("R3", "%s refuses a minus sign" % g, call.where,
+                     "%s silently negates: '-1' is returned as %d with success; no test for '-' on the path to success" % (cname, hi),
+                     key="sign:%s" % g)
 
 
 def r5_bool(prog, ctx):
-    for fname, labeller, what in (("getBoolValueNum", _get_label, "getter"), ("setBoolValueNum", _set_label, "setter")):
+    for fname, labeller, what, consumer in (("getBoolValueNum", _get_label, "getter", _get_consumer), ("setBoolValueNum", _set_label, "setter", _set_consumer)):
         f = prog.fn(fname)
         ctx.touch(f)
-        rec, unknown = conv.bool_recognition(f, labeller)
+        rec, unknown = conv.bool_recognition(f, labeller, consumer)
         hashed = [(L, how, x) for s in rec.values() for (L, how, x) in s if how == "hash"] + [u for u in unknown if u[1] == "hash"]
         if hashed:
             ctx.fail("R5", "%s recognises words by string equality" % fname, f.where,
@@ -215,8 +207,10 @@ def r5_bool(prog, ctx):
             ctx.fail("R5", "%s word set" % fname, f.where, "accepts %s beyond 1/0 yes/no true/false" % sorted(extra),
                      key="bool-extra:%s" % fname)
         elif missing:
-            if not t_full and not fl_full:
-                ctx.inconclusive("R5", "%s word set" % fname, f.where, "comparison idiom not recognised")
+            opaque = [c for c in f.calls(conv.STRCMPS) if not any(x.string_value() is not None for x in c.call_args())]
+            if (not t_full and not fl_full) or opaque or unknown:
+                ctx.inconclusive("R5", "%s word set" % fname, f.where, "comparison idiom not recognised (%s)" % (
+                    render(opaque[0]) if opaque else "no literal comparison leads to a result store"))
             else:
                 ctx.fail("R5", "%s word set" % fname, f.where, "does not accept %s" % sorted(missing), key="bool-missing:%s" % fname)
         else:
@@ -335,6 +329,29 @@ def _set_label(n):
     return None
 
 
+def _get_consumer(fn, m):
+    """the getter hands the table's meaning on: *result = M"""
+    for lhs, rhs, st, kind in query.stores(fn):
+        l = lhs.strip()
+        if kind == "=" and rhs is not None and l.k == "UnaryOperator" and l.j.get("op") == "*" and query.refs_param(l.children[0], "result") \
+                and rhs.strip().k == "DeclRefExpr" and render(rhs.strip()) == m:
+            return lambda v: bool(v)
+    return None
+
+
+def _set_consumer(fn, m):
+    """the setter stores strdup(M ? "true" : "false")"""
+    for c in fn.calls("strdup"):
+        a = c.call_args()[0].strip() if c.call_args() else None
+        if a is not None and a.k == "ConditionalOperator" and render(a.child("cond")) == m:
+            t, e = a.child("then").string_value(), a.child("else").string_value()
+            if (t, e) == ("true", "false"):
+                return lambda v: bool(v)
+            if (t, e) == ("false", "true"):
+                return lambda v: not bool(v)
+    return None
+
+
 def run(prog, ctx):
     n = 0
     for g, (width, signed, kind) in conv.GETTERS.items():
@@ -363,13 +380,11 @@ def run(prog, ctx):
             args = call.call_args()
             a1 = args[1].strip()
             endp = render(a1.children[0]) if a1.k == "UnaryOperator" and a1.j.get("op") == "&" else None
-            for r in succ:
-                ok, _ = f.cfg.all_paths_cut(f.cfg.block_of(r), lambda lit, b, i: lit is not None and lit.kind == "eq" and not lit.pol
-                                            and endp in (render(lit.lhs), render(lit.rhs)))
-                if ok:
-                    ctx.ok("R4", "%s: no-digits test" % g, r.where, "every path to success carries %s != start of text" % endp)
-                else:
-                    ctx.fail("R4", "%s: no-digits test" % g, r.where, "success without the end-pointer having moved", key="endptr:%s" % g)
+            anchor = succ[0] if succ else f
+            if endp and f.cfg.success_cut(lambda lit, b, i: lit is not None and lit.kind == "eq" and not lit.pol and endp in (render(lit.lhs), render(lit.rhs))):
+                ctx.ok("R4", "%s: no-digits test" % g, anchor.where, "every path to success carries %s != start of text" % endp)
+            else:
+                ctx.fail("R4", "%s: no-digits test" % g, anchor.where, "success without the end-pointer having moved", key="endptr:%s" % g)
     r5_bool(prog, ctx)
     # the typed public getters reach these through the macro: 8 + 8 Def wrappers
     pub = [x for x in prog.entry_points() if x.startswith("econf_get") and x.endswith("Value")
